@@ -1,20 +1,18 @@
 import PGT.Model.Float
-import Std.Tactic.BVDecide
+import PGT.Proofs.FloatRTKernel
 /-
 float32 -> float64 -> float32 is the identity on every non-NaN bit pattern (all 2^32 - 2^24 + 2 of them),
 and the zero test on the widened value sees exactly the two float32 zeros.
-Proved by `bv_decide` (bit-blasting + SAT certificate checked by `Lean.ofReduceBool`, i.e. compiled code: the one
-declared exception to "kernel only", see DESIGN §8).
+Proved in `FloatRTKernel.lean` on `BitVec.toNat` level (sign / exponent / mantissa decomposition, one parametric lemma for the
+position of the leading one of a subnormal, `omega`): kernel-checked, no `bv_decide` – the earlier proof by bit-blasting, which
+needed the `ofReduceBool` axiom, is gone.
 -/
 namespace PGT.F
 
-theorem narrow_widen (x : BitVec 32) (h : isNaN32 x = false) : narrow32 (widen64 x) = x := by
-  unfold isNaN32 at h
-  unfold narrow32 widen64
-  bv_decide
+theorem narrow_widen (x : BitVec 32) (h : isNaN32 x = false) : narrow32 (widen64 x) = x :=
+  Kernel.narrow_widen x h
 
-theorem widen_zero (x : BitVec 32) : isZero64 (widen64 x) = ((x &&& 0x7fffffff#32) == 0#32) := by
-  unfold isZero64 widen64
-  bv_decide
+theorem widen_zero (x : BitVec 32) : isZero64 (widen64 x) = ((x &&& 0x7fffffff#32) == 0#32) :=
+  Kernel.widen_zero x
 
 end PGT.F
